@@ -174,42 +174,36 @@ def gu_op(rng, cls, regs, dagger=False):
         c, s, phi = circle(rng)
         r = rng.choice([F(1, 2), F(1, 4), F(-1, 2), F(1), F(3, 4), F(0), F(2)])
         op["pars"] = [float(r), phi]
-        op["ex"] = dict(op="disp", dx=rat(2 * r * c), dp=rat(2 * r * s))
+        op["ex"] = dict(op="gate", name="D", a=[rat(r * c), rat(r * s)])
     elif cls == "Rgate":
         c, s, th = circle(rng)
-        g = [[c, -s], [s, c]]
         op["pars"] = [th]
-        op["ex"] = dict(op="blk1", g=jmat(g), gi=jmat(rinv(g)))
+        op["ex"] = dict(op="gate", name="R", a=[rat(c), rat(s)])
     elif cls == "Sgate":
         c, s, phi = circle(rng)
         ch, sh, r = hyper(rng)
-        g = [[ch - c * sh, -s * sh], [-s * sh, ch + c * sh]]
         op["pars"] = [r, phi]
-        op["ex"] = dict(op="blk1", g=jmat(g), gi=jmat(rinv(g)))
+        op["ex"] = dict(op="gate", name="S", a=[rat(c), rat(s), rat(ch), rat(sh)])
     elif cls == "S2gate":
         c, s, phi = circle(rng)
         ch, sh, r = hyper(rng)
-        g = [[ch, c * sh, F(0), s * sh], [c * sh, ch, s * sh, F(0)], [F(0), s * sh, ch, -c * sh], [s * sh, F(0), -c * sh, ch]]
         op["pars"] = [r, phi]
-        op["ex"] = dict(op="blk2", g=jmat(g), gi=jmat(rinv(g)))
+        op["ex"] = dict(op="gate", name="S2", a=[rat(c), rat(s), rat(ch), rat(sh)])
     elif cls == "BSgate":
         ct, st, th = circle(rng)
         c, s, phi = circle(rng)
-        g = interf_symp(bs_unitary(ct, st, c, s))
         op["pars"] = [th, phi]
-        op["ex"] = dict(op="blk2", g=jmat(g), gi=jmat(rinv(g)))
+        op["ex"] = dict(op="gate", name="BS", a=[rat(ct), rat(st), rat(c), rat(s)])
     elif cls == "MZgate":
         cv, sv, pin = circle(rng)
         cu, su, pex = circle(rng)
-        g = interf_symp(mz_unitary((cv, sv), (cu, su)))
         op["pars"] = [pin, pex]
-        op["ex"] = dict(op="blk2", g=jmat(g), gi=jmat(rinv(g)))
+        op["ex"] = dict(op="gate", name="MZ", a=[rat(F(1, 2)), rat(cv), rat(sv), rat(cu), rat(su)])
     elif cls == "sMZgate":
         cs_, ss_, sig = circle(rng)
         cd, sd, dl = circle(rng)
-        g = interf_symp(smz_unitary((cs_, ss_), cd, sd))
         op["pars"] = [sig + dl, sig - dl]
-        op["ex"] = dict(op="blk2", g=jmat(g), gi=jmat(rinv(g)))
+        op["ex"] = dict(op="gate", name="sMZ", a=[rat(cs_), rat(ss_), rat(cd), rat(sd)])
     elif cls == "Interferometer":
         k = len(regs)
         U = rand_unitary_exact(rng, k)
@@ -235,30 +229,27 @@ def passive_op(rng, cls, regs, dagger=False):
     if cls == "Rgate":
         c, s, th = circle(rng)
         op["pars"] = [th]
-        op["ex"] = dict(op="one", g=jcx((c, s)), gi=jcx((c, -s)))
+        op["ex"] = dict(op="gate", name="R", a=[rat(c), rat(s)])
     elif cls == "LossChannel":
         q = rng.choice([F(0), F(1, 2), F(3, 4), F(1), F(2, 3), F(1, 4)])
         op["pars"] = [float(q * q)]
         op["dagger"] = False
-        op["ex"] = dict(op="one", g=jcx((q, F(0))), gi=jcx((q, F(0))))
+        op["ex"] = dict(op="gate", name="Loss", a=[rat(q)])
     elif cls == "BSgate":
         ct, st, th = circle(rng)
         c, s, phi = circle(rng)
-        U = bs_unitary(ct, st, c, s)
         op["pars"] = [th, phi]
-        op["ex"] = dict(op="two", g=jcmat(U), gi=jcmat(cdag(U)))
+        op["ex"] = dict(op="gate", name="BS", a=[rat(ct), rat(st), rat(c), rat(s)])
     elif cls == "MZgate":
         cv, sv, pin = circle(rng)
         cu, su, pex = circle(rng)
-        U = mz_unitary((cv, sv), (cu, su))
         op["pars"] = [pin, pex]
-        op["ex"] = dict(op="two", g=jcmat(U), gi=jcmat(cdag(U)))
+        op["ex"] = dict(op="gate", name="MZ", a=[rat(F(1, 2)), rat(cv), rat(sv), rat(cu), rat(su)])
     elif cls == "sMZgate":
         cs_, ss_, sig = circle(rng)
         cd, sd, dl = circle(rng)
-        U = smz_unitary((cs_, ss_), cd, sd)
         op["pars"] = [sig + dl, sig - dl]
-        op["ex"] = dict(op="two", g=jcmat(U), gi=jcmat(cdag(U)))
+        op["ex"] = dict(op="gate", name="sMZ", a=[rat(cs_), rat(ss_), rat(cd), rat(sd)])
     elif cls in ("Interferometer", "PassiveChannel"):
         k = len(regs)
         U = rand_unitary_exact(rng, k)
@@ -336,22 +327,59 @@ def _param(p):
     return p
 
 
-def build(spec, name="c11"):
-    """returns (prog, cmds): cmds[i] is the Command of spec op i"""
+def build(spec, name="c11", op_cache=None):
+    """returns (prog, cmds): cmds[i] is the Command of spec op i (None for New).
+    `op_cache` (a dict) makes equal operations ONE shared Operation instance, within a program and across all
+    programs built with the same cache (`bs = BSgate(..)` created once and applied many times)."""
+    import json
     import strawberryfields as sf
     from strawberryfields import ops
     prog = sf.Program(spec["n"], name=name)
     with prog.context as q:
+        q = list(q)
         for op in spec["ops"]:
             if op["cls"] == "Del":
                 ops.Del | tuple(q[i] for i in op["regs"])
                 continue
-            o = getattr(ops, op["cls"])(*[_param(p) for p in op.get("pars", [])])
-            if op.get("dagger"):
-                o = o.H
+            if op["cls"] == "New":          # regs = the indices the new modes receive
+                q += list(ops.New(len(op["regs"])))
+                continue
+            key = None
+            if op_cache is not None:
+                key = json.dumps([op["cls"], op.get("pars", []), op.get("kw", {}), bool(op.get("dagger"))], sort_keys=True)
+            if key is not None and key in op_cache:
+                o = op_cache[key]
+            else:
+                o = getattr(ops, op["cls"])(*[_param(p) for p in op.get("pars", [])], **op.get("kw", {}))
+                if op.get("dagger"):
+                    o = o.H
+                if key is not None:
+                    op_cache[key] = o
             regs = [q[i] for i in op["regs"]]
             o | (regs if len(regs) > 1 else regs[0])
     return prog, list(prog.circuit)
+
+
+def circuit_signature(cmds):
+    """value-level description of a command list (class, registers, evaluated parameters, flags)"""
+    from strawberryfields.parameters import par_evaluate
+    out = []
+    for c in cmds:
+        ps = []
+        for p in (par_evaluate(c.op.p) if getattr(c.op, "p", None) else []):
+            a = np.asarray(p)
+            ps.append((a.shape, a.astype(complex).round(12).tobytes()))
+        out.append((c.op.__class__.__name__, tuple(r.ind for r in c.reg), tuple(ps), bool(getattr(c.op, "dagger", False))))
+    return out
+
+
+def snapshot(prog):
+    """deep value snapshot + object identities of a program (to detect in-place edits of the source)"""
+    cmds = list(prog.circuit)
+    return dict(ids=[(id(c), id(c.op)) for c in cmds], sig=circuit_signature(cmds),
+                pids=[tuple(id(p) for p in getattr(c.op, "p", [])) for c in cmds],
+                reg=[(r.ind, r.active) for r in prog.reg_refs.values()],
+                target=prog.target)
 
 
 # ------------------------------------------------------------------ independent float reference
@@ -390,6 +418,17 @@ def gate_block(op):
         S, d = symp_of_unitary(pars[0]), np.zeros(2 * k)
     elif cls == "GaussianTransform":
         S, d = np.asarray(pars[0], dtype=float), np.zeros(2 * k)
+    elif cls in ("GraphEmbed", "BipartiteGraphEmbed"):
+        # no closed formula here: the gate is *defined* by its decomposition (whose correctness is C02's subject);
+        # what C11 needs is the ordered product of the commands the decomposition emits
+        from strawberryfields import ops as sfops
+        from strawberryfields.program_utils import RegRef
+        o = getattr(sfops, cls)(*pars, **op.get("kw", {}))
+        sub = [cmd_to_op(c) for c in o.decompose([RegRef(i) for i in range(k)])]
+        r = net_reference(sub, list(range(k)))
+        if r is None:
+            return None
+        S, d = r
     else:
         return None
     if op.get("dagger"):
